@@ -3,7 +3,11 @@ package ast
 import (
 	"fmt"
 	"io"
+	"sync"
 )
+
+// parseLock serialises parse, which keeps the regex capture-group counter in a package-level variable.
+var parseLock sync.Mutex
 
 type Ast struct {
 	commands []AstCommand
@@ -21,7 +25,10 @@ func ParseReader(reader io.Reader) (*Ast, error) {
 		return nil, lexError
 	}
 
+	// the parser numbers regex capture groups with a package-level counter: one parse at a time
+	parseLock.Lock()
 	commands, parseError := parse(tokens)
+	parseLock.Unlock()
 	if parseError != nil {
 		return nil, parseError
 	}
